@@ -761,6 +761,40 @@ theorem setCWTClaims_text_utf8 (h h' claims : GoMap) (n : Int) (hn : n = 1 ∨ n
   unfold setCWTClaims at hs
   rcases hn with rfl | rfl <;> simp [hl] at hs <;> cases hc : canTstr v <;> simp_all
 
+/-- `ProtectedHeader.Critical` (since F35): a crit parameter present under ANY Go integer spelling
+    of label 2 is never reported as absent -/
+theorem critical_present_any_spelling (h : GoMap) (e : GoVal × GoVal) (he : e ∈ h)
+    (hn : normalizeLabel e.1 = some (.int .i64 2)) : critical h ≠ .ok none := by
+  have hl : normalizeLabel (lbl 2) = some (.int .i64 2) := by simp [lbl, normalizeLabel, wrap64, IntKind.wide, maxInt64]
+  have hh : hasLabel h (lbl 2) = true := (hasLabel_norm' h (lbl 2) _ hl).mpr ⟨e, he, hn⟩
+  unfold hasLabel at hh
+  unfold critical
+  cases hlk : lookupLabel h (lbl 2) with
+  | none => rw [hlk] at hh; cases hh
+  | some v =>
+    simp only []
+    split
+    · split <;> simp
+    · simp
+
+/-- … and absent means absent under every spelling -/
+theorem critical_absent_iff (h : GoMap) :
+    critical h = .ok none ↔ ¬ ∃ e ∈ h, normalizeLabel e.1 = some (.int .i64 2) := by
+  have hl : normalizeLabel (lbl 2) = some (.int .i64 2) := by simp [lbl, normalizeLabel, wrap64, IntKind.wide, maxInt64]
+  constructor
+  · intro hc ⟨e, he, hn⟩
+    exact critical_present_any_spelling h e he hn hc
+  · intro hno
+    have hh : hasLabel h (lbl 2) = false := by
+      cases hb : hasLabel h (lbl 2) with
+      | false => rfl
+      | true => exact absurd ((hasLabel_norm' h (lbl 2) _ hl).mp hb) hno
+    unfold hasLabel at hh
+    unfold critical
+    cases hlk : lookupLabel h (lbl 2) with
+    | none => rfl
+    | some v => rw [hlk] at hh; cases hh
+
 end C13
 
 namespace C08
